@@ -123,6 +123,8 @@ func Build(c *Cmd) *proto2.Command {
 		switch c.X {
 		case "otherkey":
 			v.Ski.ShardKey = []string{"tk2"}
+		case "range":
+			v.Ski.Type = pS(meta2.RANGE)
 		case "badschema": // the same field twice with conflicting types
 			v.SchemaInfo = []*proto2.FieldSchema{{FieldName: pS("f1"), FieldType: pI32(1)}, {FieldName: pS("f1"), FieldType: pI32(3)}}
 		case "schema":
